@@ -61,6 +61,8 @@ def enc(v):
         return str(v)
     if v is None:
         return "N"
+    if isinstance(v, float) and v == v and abs(v) != float("inf"):
+        v = fractions.Fraction(v)      # every finite double is an exact rational
     if isinstance(v, fractions.Fraction):
         return "R%d/%d" % (v.numerator, v.denominator)
     if isinstance(v, (list, tuple)):
